@@ -50,6 +50,8 @@ def generate(tier, rng):
                 # sum_to / sum_over: every ordered subset of the array's letters
                 for sub in ordered_subsets(adims):
                     style = ["L", "N", "D"][(k + len(sub)) % 3:] + ["L", "N", "D"][: (k + len(sub)) % 3]
+                    if (k + len(sub)) % 4 == 0:
+                        style = ["O" if x == "D" else x for x in style]
                     if vk == 0:
                         cases.append(dict(base, op=dict(kind="sum_to", args=_args(style, sub, uni))))
                     else:
@@ -112,6 +114,9 @@ def _pyargs(uni, args):
             out.append(l)
         elif st == "N":
             out.append(uni[l]["name"] if l in uni else l)
+        elif st == "O":
+            # a Dimension object from elsewhere: the array's letter and items under another name (dimensions go by their letter)
+            out.append(fl_dim(dict(uni[l], name=uni[l]["name"] + " (other)")))
         else:
             out.append(fl_dim(uni[l]))
     return tuple(out)
